@@ -1470,8 +1470,22 @@ fn format_generic_parameter(
     let default_type = match (generic_parameter.equals(), generic_parameter.default_type()) {
         (Some(equals), Some(default_type)) => {
             let equals = fmt_symbol!(ctx, equals, " = ", shape);
-            let (equals, default_type) =
-                attempt_assigned_type_tactics(ctx, equals, default_type, shape);
+            let (equals, default_type) = if matches!(
+                generic_parameter.parameter(),
+                GenericParameterInfo::Variadic { .. }
+            ) {
+                // The default of a generic type pack is a type pack itself:
+                // the parentheses around a single type are what makes it one, so they are kept
+                let default_type = format_type_info_internal(
+                    ctx,
+                    default_type,
+                    TypeInfoContext::new().mark_within_generic(),
+                    shape + 3, // 3 = " = "
+                );
+                (equals, default_type)
+            } else {
+                attempt_assigned_type_tactics(ctx, equals, default_type, shape)
+            };
             Some((equals, default_type))
         }
         (None, None) => None,
